@@ -65,10 +65,15 @@ def store_nibabel_image_to_fullres_info(img,
                             mime_type="application/json")
     except DataAccessError as exc:
         logger.error("cannot write transform.json: %s", exc)
-    logger.info("Neuroglancer transform of the converted volume "
-                "(written to transform.json):\n%s",
+        transform_written = False
+    else:
+        transform_written = True
+    logger.info("Neuroglancer transform of the converted volume%s:\n%s",
+                " (written to transform.json)" if transform_written else "",
                 neuroglancer_scripts.transform.matrix_as_compact_urlsafe_json(
                     json_transform))
+    if not transform_written:
+        return 1
     return 4 if imperfect_dtype else 0
 
 
